@@ -44,8 +44,15 @@ def enumerate_states(tier, seed):
                     if tier == "quick" and f not in (0, 3, 1 + (seed % 2)):
                         continue
                     states.append({"t": t, "s": s, "o": o, "f": f})
-    return states, {"bound_completed": "8 predicates x sizes in domain P x 32 orientations x %s offsets, ~300 constructed points each"
-                                       % ("3 of 4 (seed-selected)" if tier == "quick" else "4"), "exhaustive": tier == "thorough"}
+            if tier == "thorough":
+                # dense family: 672 further orientations x 2 offsets, points constructed from 152 directions
+                for o in range(len(sc.ROTS), len(sc.ALL_ROTS)):
+                    for f in (0, 2):
+                        states.append({"t": t, "s": s, "o": o, "f": f, "dense": 1})
+    return states, {"bound_completed": "8 predicates x sizes in domain P x 32 orientations x %s offsets, ~300 constructed points each%s"
+                                       % ("3 of 4 (seed-selected)" if tier == "quick" else "4",
+                                          " + dense family 672 orientations x 2 offsets, ~1400 constructed points each" if tier == "thorough" else ""),
+                    "exhaustive": tier == "thorough"}
 
 
 def _viol(entry, kind, cls, detail):
@@ -98,8 +105,8 @@ def run_state(desc):
     L = max(1.0, ref.size(), float(np.linalg.norm(centre)))
     tol = 1e-9 * L
     cls = t
-    R = sc.ROTS[o]
-    dirs = list(sc.DIRS) + [sgn * R[:, i] for i in range(3) for sgn in (1.0, -1.0)]
+    R = sc.ALL_ROTS[o]
+    dirs = list(sc.DENSE_DIRS if desc.get("dense") else sc.DIRS) + [sgn * R[:, i] for i in range(3) for sgn in (1.0, -1.0)]
     size = ref.size()
     offs = [-0.45 * size, -1e-3, -1e-6, -2.0 * tol, 2.0 * tol, 1e-6, 1e-3, 0.5 * size]
     pts = [ref.centre(), ref.anchor()[0]]
